@@ -37,6 +37,16 @@ impl StateMachine<'_> {
                 return self.handle_additional_cases(State::DiffHeader(DiffType::Unified));
             }
 
+            // The header of this file has been written already (for a renamed or copied file it
+            // is written at the 'rename to' / 'copy to' line): the note cannot go with the name
+            // any more, the line is shown as it is.
+            if self.handled_diff_header_header_line_file_pair == self.current_file_pair
+                && self.current_file_pair.is_some()
+            {
+                self.emit_line_unchanged()?;
+                return Ok(true);
+            }
+
             // (the names were made relative, if asked for, when they were taken from the diff line)
             if self.minus_file != "/dev/null" {
                 self.minus_file.push_str(" (binary file)");
